@@ -44,7 +44,7 @@ H = [  # (file, old, new, what)
 M = [
     (REAL, "        self.errors.append((test, self._err_details_to_string(test, err, details)))\n        if self.failfast:\n            self.stop()\n", "        if self.failfast:\n            self.stop()\n        self.errors.append((test, self._err_details_to_string(test, err, details)))\n", 'addError: failfast test before the append'),
     (REAL, "        return not (self.errors or self.failures or self.unexpectedSuccesses)", "        return not (self.errors or self.failures)", 'wasSuccessful: unexpected successes dropped'),
-    (REAL, "        failfast = self.failfast\n        tb_locals = self.tb_locals\n        super().__init__()\n", "        failfast = self.failfast\n        tb_locals = self.tb_locals\n        self.failfast = failfast\n        super().__init__()\n", 'startTestRun: failfast restored before the reset'),
+    (REAL, "        failfast = self.failfast\n        tb_locals = self.tb_locals\n        super().__init__()\n", "        failfast = self.failfast\n        tb_locals = self.tb_locals\n        self.failfast = failfast\n        super().__init__()\n", 'startTestRun: failfast also restored before the reset (equivalent: the late restore stays)'),
     (REAL, "        return getattr(self._results[0], \"failfast\", False)", "        return getattr(self._results[-1], \"failfast\", False)", 'Multi.failfast: last target'),
     (REAL, "        return any(result.shouldStop for result in self._results)", "        return all(result.shouldStop for result in self._results)", 'Multi.shouldStop: all'),
     (REAL, "        addExpectedFailure = getattr(self.decorated, \"addExpectedFailure\", None)\n        if addExpectedFailure is None:\n            return self.addSuccess(test)", "        addExpectedFailure = getattr(self.decorated, \"addExpectedFailure\", None)\n        if addExpectedFailure is None:\n            return self.addSkip(test, \"expected failure\")", 'ETOD.addExpectedFailure: missing method becomes a skip'),
